@@ -247,6 +247,30 @@ static void case_norm(Tape &t, Ctx &cx)
         LD g1 = a_real_norm(n, p), g2 = a_real_norm_(n, ps, stride);
         judge(cx, 6, "norm:inaccurate", "a_real_norm", g1, r, n + 4, n);
         judge(cx, 6, "norm_:inaccurate", "a_real_norm_ (strided)", g2, r, n + 4, n, stride);
+        // the same call again after the caller has changed the vector in place (same argument values, other memory): the result
+        // is a function of the components, not of the pointer - a declaration that lets the compiler reuse the first result
+        // (attribute const on a function that reads caller memory) shows here
+        {
+            unsigned k = n - 1;
+            a_real nv = v[k] == 0 ? a_real(3) : a_real(-2) * v[k];
+            if (std::isfinite(double(nv)))
+            {
+                a_real keep = v[k];
+                p[k] = nv;
+                ps[k * stride] = nv;
+                v[k] = nv;
+                LD rb = refnorm(n);
+                if (rb < lim)
+                {
+                    LD h1 = a_real_norm(n, p), h2 = a_real_norm_(n, ps, stride);
+                    judge(cx, 6, "norm:stale_after_in_place_change", "a_real_norm after an in-place change of the last component", h1, rb, n + 4, n);
+                    judge(cx, 6, "norm_:stale_after_in_place_change", "a_real_norm_ after an in-place change of the last component", h2, rb, n + 4, n, stride);
+                }
+                v[k] = keep;
+                p[k] = keep;
+                ps[k * stride] = keep;
+            }
+        }
     }
     if (n >= 2)
     {
